@@ -202,14 +202,16 @@ def check_rates_fn(R, prog, rc, site, hk):
         return
     c = Ctx(cb)
     is_lst_zero = lambda t: t[0] == "call" and t[1] == "cosmwasm_std::Uint128::is_zero" and loaded_field(prog, t[2][0], "state", ["total_liquid_stake_token"], CRATE)
+    is_nat_zero = lambda t: t[0] == "call" and t[1] == "cosmwasm_std::Uint128::is_zero" and loaded_field(prog, t[2][0], "state", ["total_native_token"], CRATE)
     rem, n = bool_world_edges(c, is_lst_zero, False)
-    w = c.with_removed(rem).settle()
+    rem_n, _ = bool_world_edges(c, is_nat_zero, False)  # an additional zero-staked guard is allowed
+    w = c.with_removed(rem | rem_n).settle()
     rt = w.T.return_term()
     nat = lambda t: loaded_field(prog, t, "state", ["total_native_token"], CRATE)
     lst = lambda t: loaded_field(prog, t, "state", ["total_liquid_stake_token"], CRATE)
     fr = lambda t, a, b: t[0] == "call" and t[1] == "cosmwasm_std::Decimal::from_ratio" and a(t[2][0]) and b(t[2][1])
     good = n >= 1 and rt[0] == "tuple" and len(rt[1]) == 2 and fr(rt[1][0], nat, lst) and fr(rt[1][1], lst, nat)
-    R.ob("C15.R3", site + ":rates-formula", good, "with LST > 0 the rate computation returns %s; expected (from_ratio(stored native, stored lst), from_ratio(stored lst, stored native))" % fmt(rt)[:240], fn=cb.key)
+    R.ob("C15.R3", site + ":rates-formula", good, "with LST > 0 (and a non-zero staked total) the rate computation returns %s; expected (from_ratio(stored native, stored lst), from_ratio(stored lst, stored native))" % fmt(rt)[:240], fn=cb.key)
     rem, n2 = bool_world_edges(c, is_lst_zero, True)
     w0 = c.with_removed(rem).settle()
     rt0 = w0.T.return_term()
